@@ -1200,6 +1200,10 @@ func (p *printVisitor) LeaveSchemaExtension(ref int) {
 	}
 	if len(p.document.SchemaExtensions[ref].SchemaDefinition.RootOperationTypeDefinitions.Refs) > 0 {
 		p.write(literal.RBRACE)
+	} else if !p.document.SchemaExtensions[ref].HasDirectives {
+		// "extend schema" alone does not parse; keep the (empty) root operation list
+		p.write(literal.LBRACE)
+		p.write(literal.RBRACE)
 	}
 	if !p.document.NodeIsLastRootNode(ast.Node{Kind: ast.NodeKindSchemaExtension, Ref: ref}) {
 		if p.indent != nil {
